@@ -240,8 +240,6 @@ Fixpoint sends (l : list uact) : list Z :=
   match l with USend x :: tl => x :: sends tl | UPanic _ :: _ => [] | _ :: tl => sends tl | [] => [] end.
 Fixpoint writes (l : list uact) : list Z :=
   match l with UWrite y :: tl => y :: writes tl | UPanic _ :: _ => [] | _ :: tl => writes tl | [] => [] end.
-Fixpoint all_writes (l : list uact) : list Z :=
-  match l with UWrite y :: tl => y :: all_writes tl | _ :: tl => all_writes tl | [] => [] end.
 Definition is_fault (a : uact) : bool :=
   match a with UCancel _ | UPanic _ => true | _ => false end.
 Definition cancels_of (l : list uact) : list err :=
